@@ -89,6 +89,7 @@ type Vector struct {
 	Model   map[string]string `json:"model"`
 	Covers  []string          `json:"covers"`
 	Sched   bool              `json:"schedule_dependent"`
+	HashUF  bool              `json:"uses_uninterpreted_hash"` // the path applied the collision-free hash abstraction to symbolic bytes: a model value that must equal a digest cannot be realised with the real SHA
 	Trace   string            `json:"trace"`
 }
 
@@ -320,14 +321,16 @@ func (e *Engine) merge(res *HarnessResult, ps *pathState) {
 	if ps.inconclusive && ps.out == outOK {
 		res.Paths["ok-with-inconclusive-obligation"]++
 	}
-	seen := map[string]bool{}
+	seen := map[string]*Violation{}
 	for _, v := range res.Violations {
-		seen[v.Key()] = true
+		seen[v.Key()] = v
 	}
 	for _, v := range ps.viols {
-		if !seen[v.Key()] {
-			seen[v.Key()] = true
+		if first := seen[v.Key()]; first == nil {
+			seen[v.Key()] = v
 			res.Violations = append(res.Violations, v)
+		} else if len(first.Alts) < 6 && v.Trace != first.Trace {
+			first.Alts = append(first.Alts, v)
 		}
 	}
 	for k := range ps.covers {
@@ -470,7 +473,7 @@ func (wk *worker) runPath(fn *ssa.Function, prefix []Dec) (ps *pathState) {
 			}
 			if ok {
 				ps.vector = &Vector{Harness: fn.Name(), Model: m, Covers: sortedKeys(ps.covers), Trace: decString(ps.trace),
-					Sched: strings.Contains(" "+decString(ps.trace), " c")}
+					Sched: strings.Contains(" "+decString(ps.trace), " c"), HashUF: ps.hashSym}
 			}
 		}
 	}
